@@ -151,6 +151,19 @@ impl<'arena, 'input: 'arena> Lexer<'arena, 'input> {
         }
     }
 
+    // Length in bytes of the character starting at `at` (0 at end of input).
+    // `at` must be a character boundary of the source text.
+    #[inline]
+    fn char_len_at(&self, at: usize) -> usize {
+        match self.src.get(at) {
+            None => 0,
+            Some(b) if *b < 0x80 => 1,
+            Some(b) if *b >= 0xF0 => 4,
+            Some(b) if *b >= 0xE0 => 3,
+            Some(_) => 2,
+        }
+    }
+
     // Checks if a byte is a letter (A-Z, a-z) or underscore (_)
     //
     // Used for identifier and keyword detection
@@ -293,6 +306,9 @@ impl<'arena, 'input: 'arena> Lexer<'arena, 'input> {
                 }
 
                 let esc = self.src[pos + 1];
+                // The escaped character may be a multi-byte one; it is taken as a whole
+                // so that spans and the cursor stay on character boundaries.
+                let esc_len = self.char_len_at(pos + 1);
                 match esc {
                     b'"' if quote == b'"' => buffer.push('"'),
                     b'\'' if quote == b'\'' => buffer.push('\''),
@@ -301,18 +317,22 @@ impl<'arena, 'input: 'arena> Lexer<'arena, 'input> {
                     b't' => buffer.push('\t'),
                     _ => {
                         self.emit_error(
-                            Range::from(pos..pos + 2),
+                            Range::from(pos..pos + 1 + esc_len),
                             LexError::InvalidStringEscape,
                             vec![Label {
-                                span: Range::from(pos..pos + 2),
+                                span: Range::from(pos..pos + 1 + esc_len),
                                 message: ArenaCow::Borrowed("I no sabi dis escape character"),
                             }],
                         );
                         // Append the invalid escape character
-                        buffer.push(esc as char);
+                        // SAFETY: pos + 1 is a character boundary and esc_len the length of that character
+                        let ch = unsafe {
+                            str::from_utf8_unchecked(&self.src[pos + 1..pos + 1 + esc_len])
+                        };
+                        buffer.push_str(ch);
                     }
                 }
-                self.pos = pos + 2;
+                self.pos = pos + 1 + esc_len;
             }
         }
 
@@ -391,7 +411,9 @@ impl<'arena, 'input: 'arena> Lexer<'arena, 'input> {
                         message: ArenaCow::Borrowed("Dis number no get digit after `.`"),
                     }],
                 );
-                self.pos += 1;
+                // Skip the offending character as a whole: it may be a multi-byte
+                // character, and there may be none at all at end of input.
+                self.pos += self.char_len_at(self.pos);
                 return self.next_token().token;
             }
             while self.pos < len && self.src[self.pos].is_ascii_digit() {
